@@ -107,13 +107,40 @@ def gen_case(ctx, k):
         net["reactions"] = reacs
     n = info["n"]
     ns = len(net["species"])
+    if ns >= 3 and rng.random() < 0.3:
+        # a chemostated species declared BEFORE the reacting ones
+        net["species"][0]["chstt"] = True
+        labs = [s["label"] for s in net["species"]]
+        net["reactions"] = [{"eq": "%s -> %s" % (labs[1], labs[2]), "k+": 1.0, "k-": 0.25},
+                            {"eq": "%s + %s -> %s" % (labs[0], labs[1], labs[2]), "k+": 0.5, "k-": 0}][:rng.randint(1, 2)]
     state = [float(rng.choice([0, 1, 2, 3, 5, 8])) for _ in range(ns * n)]
     return {"net": net, "space": space, "kind": kind, "seed": rng.randint(0, 2 ** 31 - 1), "state": state, "tmax": 1e9,
             "edge": info["edge"] if kind == "grid" else list(info["edge"])}
 
 
 def small(case):
-    return {k: case[k] for k in ("net", "space", "kind", "option", "seed", "dt", "tmax", "state", "max_iter", "edge")}
+    return {k: case[k] for k in ("net", "space", "kind", "option", "seed", "dt", "tmax", "state", "max_iter", "edge", "before") if k in case}
+
+
+def child_run_seq(case, lib):
+    """the SAME engine object is used for `case["before"]` (a list of earlier scripts) and then for the case itself, as
+    when one engine object is passed to successive simulate() calls; returns the result of the last run"""
+    from strengths.librdengine import LibRDEngine
+    import strengths as st
+    option = case["option"]
+    eng = LibRDEngine(lib, option=option, requires_molecules=(option != "euler"))
+    for prev in case.get("before", []):
+        system = stoch_gen.build_system(prev["net"], prev["space"])
+        system.state = list(prev["state"])
+        script = st.RDScript(system, t_sample=[0], time_step=case["dt"], t_max=1e9, sampling_policy="on_iteration",
+                             rng_seed=prev["seed"])
+        eng.setup(script)
+        for _ in range(5):
+            if not eng.iterate():
+                break
+        eng.get_output()
+        eng.finalize()
+    return stoch_gen.child_run(case, lib, eng=eng)
 
 
 def totals(c, x, n, ns):
@@ -164,6 +191,30 @@ def run(ctx):
             c["dt"] = 1 / 1024 if option == "euler" else 1 / 2048
             c["max_iter"] = {"euler": ctx.n(60, 400), "tauleap": ctx.n(25, 200), "gillespie": ctx.n(150, 3000)}[option]
             cases.append(c)
+    # successive simulations on ONE engine object: same species labels and reaction count, other stoichiometry
+    rng = ctx.rng
+    for b in base[:ctx.n(8, 60)]:
+        labs = [s["label"] for s in b["net"]["species"]]
+        if len(labs) < 2:
+            continue
+        def net_with(eqs):
+            nn = {"species": [dict(s) for s in b["net"]["species"]], "environments": list(b["net"]["environments"]),
+                  "reactions": [{"eq": e, "k+": 1.0, "k-": 0.25} for e in eqs]}
+            for s in nn["species"]:
+                s.pop("chstt", None)
+            return nn
+        a, bb = labs[0], labs[1]
+        cc = labs[2] if len(labs) > 2 else labs[0]
+        first = ["%s -> %s" % (a, bb)]
+        second = ["%s -> %s" % (bb, cc)] if cc != bb and cc != a else ["2 %s -> %s" % (a, bb)]
+        for option in ("gillespie", "tauleap", "euler"):
+            c = dict(b)
+            c["net"] = net_with(second)
+            c["before"] = [{"net": net_with(first), "space": b["space"], "state": b["state"], "seed": 1}]
+            c["option"] = option
+            c["dt"] = 1 / 1024 if option == "euler" else 1 / 2048
+            c["max_iter"] = {"euler": 40, "tauleap": 25, "gillespie": 120}[option]
+            cases.append(c)
     per_script_model = ctx.n(12, 60)
     chunk = 45
     for c0 in range(0, len(cases), chunk):
@@ -171,7 +222,7 @@ def run(ctx):
             ctx.notes.append("time budget reached after %d of %d scripts" % (c0, len(cases)))
             break
         part = cases[c0:c0 + chunk]
-        results = stoch_gen.run_batch("stoch_gen", "child_run", part, kind="shim", timeout=ctx.n(20, 120))
+        results = stoch_gen.run_batch("props.c02", "child_run_seq", part, kind="shim", timeout=ctx.n(20, 120))
         ops, meta = [], []
         for ci, (case, res) in enumerate(zip(part, results)):
             if res is None:
@@ -188,6 +239,8 @@ def run(ctx):
             vectors, free = conservation_vectors(arr, case["net"])
             ctx.count("scripts_" + option)
             ctx.count("space_" + case["kind"])
+            if case.get("before"):
+                ctx.count("engine_object_reused")
             ctx.count("vectors_%d" % min(len(vectors), 4))
             if arr["nr"] == 0:
                 ctx.count("diffusion_only")
@@ -291,8 +344,8 @@ def run(ctx):
 
 def replay(ctx, rec):
     case = rec.get("case", rec)
-    base = {k: case[k] for k in ("net", "space", "kind", "option", "seed", "dt", "tmax", "state", "max_iter", "edge") if k in case}
-    res = stoch_gen.run_batch("stoch_gen", "child_run", [base], kind="shim", timeout=60)[0]
+    base = {k: case[k] for k in ("net", "space", "kind", "option", "seed", "dt", "tmax", "state", "max_iter", "edge", "before") if k in case}
+    res = stoch_gen.run_batch("props.c02", "child_run_seq", [base], kind="shim", timeout=60)[0]
     if res is None or res.get("hang") or "crash" in res or "exception" in res:
         return False, {"case": base, "impl": res}
 
